@@ -40,4 +40,15 @@ PROPS = {
         exhaustive=True,
         assumptions=["integer data below 2^53: binary64 sums are exact and compared exactly"],
     ),
+    "C13": dict(
+        theorems=["view_eq_chain", "view_noop", "mask_spec", "mask_length", "first_last_index", "normalize_spec", "sumList_eq"],
+        nontrivial=r"^(view|chain)-(m1|m0p1|m0p0k1|m0p0k0n1|error)",
+        rule="real `sfs view -O npy` binary on 40 (thorough 400) random non-negative count spectra with 1-4 axes x all 2^4 option subsets "
+             "(marginalize via -m or -M, project via --project-shape or -p, --mask-monomorphic, -n; 1/12 of marginalization / projection arguments inadmissible), "
+             "single invocation and the four-stage chain piped through npy, compared with viewRun in exact rationals within 2^-30 relative; "
+             "non-trivial = distinct request with at least one option set, or an error case",
+        exhaustive=False,
+        assumptions=["numeric agreement within 2^-30*(|q| + scale): projection and normalisation are evaluated in binary64 by the implementation"],
+        correspondence_only=["text output at --precision p (decided with the text model under C07)"],
+    ),
 }
